@@ -169,7 +169,7 @@ def typed_helpers(F, S, run):
                     out.append(bad("R-SEQ", inst, fn.loc(nd["id"]), fn.qn, "fixed-size read consumes sizeof(T) into &object",
                                    "length %s, sizeof(T)=%d" % (sz.get("cv"), want)))
             else:
-                t = fn.term(a[1])
+                t = fn.xterm(a[1])
                 pv = ("var", fn.params[0]["n"], fn.params[0]["d"])
                 good = t[0] == "op" and t[1] == "*" and ("size", pv) in (t[2], t[3])
                 other = None
@@ -191,7 +191,7 @@ def typed_helpers(F, S, run):
             n += 1
             nd = calls[0]
             pv = ("var", fn.params[0]["n"], fn.params[0]["d"])
-            t = fn.term(nd["args"][1])
+            t = fn.xterm(nd["args"][1])
             dst = fn.term(nd["args"][0])
             inst = "%s#length" % fn.key
             req = "a string read consumes size() * sizeof(CharT) bytes into the string's own storage (the element size is part of the length for every character type)"
